@@ -24,7 +24,7 @@ MINIMUM = {"histories": 400, "callback_invocations": 3000, "sweep_fired": 80, "c
 SHARD_TIMEOUT = {"quick": 120, "thorough": 2400}
 
 ENDINGS = ["close", "close_error", "end_of_exec", "connection_loss", "last_message"]
-WHENS = ["before", "after_j", "after_close", "concurrent"]
+WHENS = ["before", "after_j", "after_close", "concurrent", "after_receive_to_end"]
 
 
 def shards(tier, seed):
@@ -164,6 +164,7 @@ def run_history(res: Result, lab, h, label):
     if ending == "last_message":
         del S
     when = h["when"]
+    pre_received: list = []
     try:
         if when == "before":
             register()
@@ -189,6 +190,18 @@ def run_history(res: Result, lab, h, label):
             except Exception:
                 pass
             register()
+        elif when == "after_receive_to_end":
+            # the user first reads the whole stream with receive(), sees how it ended, and only then attaches a callback:
+            # nothing is left but the end of the stream, which the callback must still be told
+            send(0, n)
+            end()
+            gc.collect()
+            try:
+                while True:
+                    pre_received.append(holder[0].receive(10))
+            except (EOFError, holder[0].RemoteError):
+                pass
+            register()
         else:
             t = threading.Thread(target=register, daemon=True)
             sender = threading.Thread(target=lambda: (lab.sched.set_role("snd"), send(0, n), end()), daemon=True)
@@ -210,12 +223,12 @@ def run_history(res: Result, lab, h, label):
     if h["endmarker"]:
         pairs.wait_until(lambda: any(g is E for g in got), 15.0)
     else:
-        pairs.wait_until(lambda: len(got) >= n, 15.0)
+        pairs.wait_until(lambda: len(pre_received) + len(got) >= n, 15.0)
         time.sleep(0.002)
     bad = [g for g in got if isinstance(g, tuple) and g and g[0] == "close-raised"]
     if bad:
         res.violation(m("close-inside-endmarker-callback-raised"), f"{label}: {bad[0]}")
-    check_callback_log(res, h, [g for g in got if g not in bad], label, m)
+    check_callback_log(res, h, pre_received + [g for g in got if g not in bad], label, m)
     if api.get("receive") != "OSError":
         res.violation(m("receive-after-setcallback-not-refused"), f"{label}: {api.get('receive')}")
     if api.get("second") != "OSError":
@@ -259,6 +272,7 @@ def run_loss_history(res: Result, h, label, pre_setup=None):
         if pre_setup:
             pre_setup()
         when = h["when"]
+        pre_received: list = []
         if when == "before":
             register()
             sp.feed(b"".join(frames) + tail)
@@ -278,6 +292,15 @@ def run_loss_history(res: Result, h, label, pre_setup=None):
             except BaseException:
                 pass
             register()
+        elif when == "after_receive_to_end":
+            sp.feed(b"".join(frames) + tail)
+            sp.close_peer()
+            try:
+                while True:
+                    pre_received.append(holder[0].receive(10))
+            except (EOFError, holder[0].RemoteError):
+                pass
+            register()
         else:
             sp.feed(b"".join(frames[:j]))
             t = threading.Thread(target=register, daemon=True)
@@ -291,9 +314,9 @@ def run_loss_history(res: Result, h, label, pre_setup=None):
         if h["endmarker"]:
             pairs.wait_until(lambda: any(g is E for g in got), 15.0)
         else:
-            pairs.wait_until(lambda: len(got) >= n, 15.0)
+            pairs.wait_until(lambda: len(pre_received) + len(got) >= n, 15.0)
             time.sleep(0.002)
-        check_callback_log(res, h, list(got), label, m)
+        check_callback_log(res, h, pre_received + list(got), label, m)
         res.count("histories")
         res.count("connection_loss_histories")
     finally:
@@ -337,11 +360,14 @@ def run_shard(spec):
                     pre.set_noise(rng.getrandbits(32), rng.choice((0.02, 0.1)))
                 elif mode == "pct":
                     pre.set_pct(rng.getrandbits(32), 2500, rng.choice((1, 2, 3)), stall=0.02)
+                _t0 = time.monotonic()
                 try:
                     if h["ending"] == "connection_loss":
                         run_loss_history(res, h, label)
                     else:
                         run_history(res, lab, h, label)
+                    if time.monotonic() - _t0 > 2 and len(res.info.setdefault("slow_histories", [])) < 5:
+                        res.info["slow_histories"].append((round(time.monotonic() - _t0, 1), short(h, 300)))
                 except BaseException as e:
                     res.violation(f"history-raised:{type(e).__name__}:{h['ending']}", f"{label}: {e}")
                     lab = None
